@@ -882,61 +882,66 @@ Section WithFiles.
     then [EErr (mkErr (c_file cf) (B "bad initial origin name") eof_tok)]
     else run cf (S (length toks)) (mkPst o dt zero_hdr) toks rerr.
 
-  (* successive calls of Next on one parser; inc/gen build the sub parsers *)
+  (* one call of Next on a parser whose sub parser is exhausted, and what follows
+     it; [k] stands for the calls after this one, inc/gen build the sub parsers *)
+  Definition level_body (inc : option sub_sig) (gen : sub_sig) (cf : cfg) (rerr : option perr)
+             (k : pst -> list tok -> list ev) (p : pst) (toks : list tok) : list ev :=
+    match zloop cf p XOwnerDir 0 toks with
+    | NRec r p' rest => ERec r :: k p' rest
+    | NEnd => match rerr with Some e => [EErr e] | None => [] end
+    | NErr m t => [EErr (mkErr (c_file cf) m t)]
+    | NUnmodelled => [EUnmodelled]
+    | NInclude l neworigin p' rest =>
+      if Nat.leb maxIncludeDepth (c_depth cf)
+      then [EErr (mkErr (c_file cf) (B "too deeply nested $INCLUDE") l)]
+      else
+        match inc with
+        | None => [EFuel]
+        | Some sub =>
+          let path := include_path (c_fs cf) (c_file cf) (t_text l) in
+          match (if c_fs cf then fs_open path else os_open path) with
+          | None => [EOpen (c_fs cf) path false (S (c_depth cf));
+                     EErr (mkErr (c_file cf) (B "failed to open") l)]
+          | Some content =>
+            let evs := sub (mkCfg path true (c_fs cf) false (S (c_depth cf))) neworigin (p_defttl p')
+                           (lex content) None in
+            EOpen (c_fs cf) path true (S (c_depth cf)) ::
+            (if failed evs then evs else evs ++ k p' rest)
+          end
+        end
+    | NGenerate l p' rest =>
+      match parse_range (t_text l) with
+      | inl m => [EErr (mkErr (c_file cf) (B m) l)]
+      | inr (start, stop, step) =>
+        let '(bl, r1) := next_tok rest in
+        if negb (is_val bl ZBlank) then [EErr (mkErr (c_file cf) (B "garbage after $GENERATE range") bl)]
+        else
+          match gen_collect r1 [] with
+          | inl t => [EErr (mkErr (c_file cf) (B "bad data in $GENERATE directive") t)]
+          | inr (s, rest') =>
+            let '(octets, ge) := gen_bytes s start stop step in
+            let rerr' :=
+              match ge with
+              | None => None
+              | Some g => Some (mkErr (c_file cf) (B (ge_msg g))
+                            (mkTok (t_val bl) (ge_text g) (t_err bl) (t_torc bl) (t_line bl)
+                                   (t_col bl + ge_col g) (t_com bl)))
+              end in
+            let toks' := fst (lex_full octets (match ge with Some _ => true | None => false end)) in
+            let evs := gen (mkCfg (c_file cf) (c_inc cf) false true (c_depth cf)) (p_origin p')
+                           (Some (mkTtl defaultTtl false)) toks' rerr' in
+            if failed evs then evs else evs ++ k p' rest'
+          end
+      end
+    end.
+
+  (* successive calls of Next on one parser *)
   Definition level (inc : option sub_sig) (gen : sub_sig)
     : cfg -> nat -> pst -> list tok -> option perr -> list ev :=
     fix run (cf : cfg) (fuel : nat) (p : pst) (toks : list tok) (rerr : option perr) : list ev :=
       match fuel with
       | O => [EFuel]
-      | S f =>
-        match zloop cf p XOwnerDir 0 toks with
-        | NRec r p' rest => ERec r :: run cf f p' rest rerr
-        | NEnd => match rerr with Some e => [EErr e] | None => [] end
-        | NErr m t => [EErr (mkErr (c_file cf) m t)]
-        | NUnmodelled => [EUnmodelled]
-        | NInclude l neworigin p' rest =>
-          if Nat.leb maxIncludeDepth (c_depth cf)
-          then [EErr (mkErr (c_file cf) (B "too deeply nested $INCLUDE") l)]
-          else
-            match inc with
-            | None => [EFuel]
-            | Some sub =>
-              let path := include_path (c_fs cf) (c_file cf) (t_text l) in
-              match (if c_fs cf then fs_open path else os_open path) with
-              | None => [EOpen (c_fs cf) path false (S (c_depth cf));
-                         EErr (mkErr (c_file cf) (B "failed to open") l)]
-              | Some content =>
-                let evs := sub (mkCfg path true (c_fs cf) false (S (c_depth cf))) neworigin (p_defttl p')
-                               (lex content) None in
-                EOpen (c_fs cf) path true (S (c_depth cf)) ::
-                (if failed evs then evs else evs ++ run cf f p' rest rerr)
-              end
-            end
-        | NGenerate l p' rest =>
-          match parse_range (t_text l) with
-          | inl m => [EErr (mkErr (c_file cf) (B m) l)]
-          | inr (start, stop, step) =>
-            let '(bl, r1) := next_tok rest in
-            if negb (is_val bl ZBlank) then [EErr (mkErr (c_file cf) (B "garbage after $GENERATE range") bl)]
-            else
-              match gen_collect r1 [] with
-              | inl t => [EErr (mkErr (c_file cf) (B "bad data in $GENERATE directive") t)]
-              | inr (s, rest') =>
-                let '(octets, ge) := gen_bytes s start stop step in
-                let rerr' :=
-                  match ge with
-                  | None => None
-                  | Some g => Some (mkErr (c_file cf) (B (ge_msg g))
-                                (mkTok (t_val bl) (ge_text g) (t_err bl) (t_torc bl) (t_line bl)
-                                       (t_col bl + ge_col g) (t_com bl)))
-                  end in
-                let toks' := fst (lex_full octets (match ge with Some _ => true | None => false end)) in
-                let evs := gen (mkCfg (c_file cf) (c_inc cf) false true (c_depth cf)) (p_origin p')
-                               (Some (mkTtl defaultTtl false)) toks' rerr' in
-                if failed evs then evs else evs ++ run cf f p' rest' rerr
-              end
-          end
-        end
+      | S f => level_body inc gen cf rerr (fun p' t' => run cf f p' t' rerr) p toks
       end.
 
   (* [d] bounds the nesting of sub parsers made by $INCLUDE (the recursion is
